@@ -14,3 +14,5 @@ CONSTANTS
   StopForgetsParts = TRUE
   DropRemembered = FALSE
   MayStartAgain = TRUE
+  PartsDroppedAtStart <- NoParts
+  SynthPartSkipped = FALSE
